@@ -3,6 +3,7 @@ package c11
 
 import (
 	"fmt"
+	"github.com/twpayne/go-geom/bigxy"
 	"math"
 	"testing"
 
@@ -24,13 +25,13 @@ func TestMain(m *testing.M) { run.Main(m) }
 // polyline + point), "linefloat" (float polyline + point) or "ringfloat"
 // (closed ring of arbitrary finite doubles + point PF).
 type Case struct {
-	Mode  string        `json:"mode"`
-	Class string        `json:"class,omitempty"`
-	Ring  [][2]int64    `json:"ring,omitempty"`
-	P     [2]int64      `json:"p,omitempty"`
-	LineF [][2]model.F  `json:"linef,omitempty"`
-	PF    [2]model.F    `json:"pf,omitempty"`
-	RingF [][2]model.F  `json:"ringf,omitempty"`
+	Mode  string       `json:"mode"`
+	Class string       `json:"class,omitempty"`
+	Ring  [][2]int64   `json:"ring,omitempty"`
+	P     [2]int64     `json:"p,omitempty"`
+	LineF [][2]model.F `json:"linef,omitempty"`
+	PF    [2]model.F   `json:"pf,omitempty"`
+	RingF [][2]model.F `json:"ringf,omitempty"`
 }
 
 func cross(a, b, p [2]int64) int64 {
@@ -678,6 +679,17 @@ func genCase(t *rapid.T) Case {
 }
 
 func prop(c Case) error {
+	// the other exported function of the package the predicates compute with runs first
+	// (whatever it returns or panics with): it shares nothing with them that could
+	// change an answer
+	_ = run.Safe(func() error {
+		_ = bigxy.Intersection(geom.Coord{0.1, 0.7}, geom.Coord{3.3, -1.9}, geom.Coord{-2.5, 0.3}, geom.Coord{4.7, 1.1})
+		return nil
+	})
+	return prop0(c)
+}
+
+func prop0(c Case) error {
 	switch c.Mode {
 	case "ring":
 		if err := checkRing(c.P, c.Ring, geom.XY, "ring"); err != nil {
